@@ -32,6 +32,8 @@ type Options struct {
 	// FirstAckReset scripts the first ACK read of the first connection to fail with a reset (not a choice, no cost):
 	// scenarios that start from "one session already failed, leftovers are being resent".
 	FirstAckReset bool
+	// AlwaysRefuse scripts every connection attempt to be refused (an upstream that is down for the whole generation).
+	AlwaysRefuse bool
 }
 
 // Env is one scripted upstream endpoint (all connection attempts of one client).
@@ -103,6 +105,10 @@ func (e *Env) choose(n int, label string) int {
 // Open is the EstablishConnectionFunc.
 func (e *Env) Open() (baseoutput.ClosableClientConnection, error) {
 	k := len(e.Conns)
+	if e.Opt.AlwaysRefuse {
+		e.note("connect attempt: refused (scripted, upstream down)")
+		return nil, &net.OpError{Op: "dial", Net: "tcp", Err: os.NewSyscallError("connect", syscall.ECONNREFUSED)}
+	}
 	switch e.choose(e.Opt.ConnectAlt, "connect") {
 	case 1:
 		e.note("connect attempt: refused")
